@@ -264,6 +264,8 @@ enum Kind {
     Probe { path: &'static str, e: Expr },
     C10 { e: Expr },
     C10T { e: Expr },
+    /// the same through `.where(<e>)`: is the event kept by the folded program
+    C10W { e: Expr },
 }
 
 #[derive(Clone)]
@@ -763,6 +765,7 @@ fn gen_c10(rng: &mut Rng, thorough: bool) -> Cases {
         cases.push(Case { env: 0, kind: Kind::C10 { e: e.clone() } });
         // the text path builds one Engine per program: every 5th entry in the quick tier
         if (thorough || i % 5 == 0) && vpl(e).is_some() { cases.push(Case { env: 0, kind: Kind::C10T { e: e.clone() } }); }
+        if (thorough || i % 7 == 0) && vpl(e).is_some() { cases.push(Case { env: 0, kind: Kind::C10W { e: bin(BinOp::Eq, e.clone(), e.clone()) } }); }
     }
     // random trees, arithmetic-heavy, literals biased to 0/1/extremes
     let n_rand = if thorough { 60000 } else { 5000 };
@@ -774,7 +777,9 @@ fn gen_c10(rng: &mut Rng, thorough: bool) -> Cases {
         let depth = 1 + rng.below(if thorough { 4 } else { 3 }) as u32;
         let e = if rng.chance(3, 4) { g.expr(rng, depth) } else { g2.expr(rng, depth) };
         cases.push(Case { env, kind: Kind::C10 { e: e.clone() } });
-        if rng.chance(1, if thorough { 6 } else { 15 }) && vpl(&e).is_some() { cases.push(Case { env, kind: Kind::C10T { e } }); }
+        if rng.chance(1, if thorough { 6 } else { 15 }) && vpl(&e).is_some() {
+            if rng.chance(1, 3) { cases.push(Case { env, kind: Kind::C10W { e } }); } else { cases.push(Case { env, kind: Kind::C10T { e } }); }
+        }
     }
     Cases { envs, cases }
 }
@@ -910,6 +915,20 @@ fn eval_case(ch: &mut Child, cs: &Cases, c: &Case) -> String {
             let fe = match folded.statements.into_iter().next().map(|s| s.node) { Some(Stmt::Expr(x)) => x, _ => gen_error("fold_program changed the statement kind".into()) };
             let f = eval_e(&fe, env);
             format!("{} | {} | {}", fmt_res(&u), fmt_res(&f), fmt_expr(&fe))
+        }
+        Kind::C10W { e } => {
+            let src = format!("stream S = E .where({}) .emit(ok: 1)", vpl(e).unwrap());
+            let program = match varpulis_parser::parse(&src) { Ok(p) => p, Err(_) => return "SKIP-parse".into() };
+            let parsed = program.statements.iter().find_map(|s| match &s.node {
+                Stmt::StreamDecl { ops, .. } => ops.iter().find_map(|o| match o { StreamOp::Where(x) => Some(x.clone()), _ => None }),
+                _ => None });
+            let prog = Program { statements: vec![Spanned::dummy(Stmt::Expr(e.clone()))] };
+            let want = match varpulis_parser::optimize::fold_program(prog).statements.into_iter().next().map(|s| s.node) { Some(Stmt::Expr(x)) => x, _ => return "SKIP-shape".into() };
+            if parsed.as_ref().map(fmt_expr) != Some(fmt_expr(&want)) { return "SKIP-shape".into(); }
+            match run_engine(&ch.rt, &mut ch.engines, &src, env.event(), false) {
+                Err(_) => "SKIP-load".into(),
+                Ok(out) => if out.is_empty() { "dropped".into() } else if out.len() == 1 { "kept".into() } else { format!("outputs={}", out.len()) },
+            }
         }
         Kind::C10T { e } => {
             // `.emit(v: name)` / `.emit(v: "text")` are field copies, not expression evaluation
@@ -1054,6 +1073,11 @@ pub fn run(ctx: &mut Ctx, name: &str) {
                 let parts: Vec<&str> = r.split(" | ").collect();
                 if parts.len() == 3 { if parts[2] != fmt_expr(e) { ctx.count("c10:fold-changed-the-tree"); } if parts[0] != parts[1] { ctx.count("c10:value-changed"); } }
                 ctx.case(&format!("c10 {}", fmt_expr(e)), r);
+            }
+            Kind::C10W { e } => {
+                if r.starts_with("SKIP") { ctx.count(&format!("c10w:{}", r)); continue; }
+                ctx.count(&format!("c10w:{}", r));
+                ctx.case(&format!("c10w {}", fmt_expr(e)), r);
             }
             Kind::C10T { e } => {
                 if r.starts_with("SKIP") { ctx.count(&format!("c10t:{}", r)); continue; }
